@@ -548,6 +548,60 @@ def ob_dsis_query(q, w, tier="quick"):
     return explore(body, _opts(tier))
 
 
+def ob_dsis_history(w=2, tier="quick", query="collapse"):
+    """a discrete set answers for its CURRENT members, whatever it was asked before: the set is queried (collapse / a comparison, which
+    collapses), then joined with another interval, then queried again - the second answer must cover the members that the join added.
+    (The lifting lemmas above run each operation on a freshly built set; derived state carried over by copy() would escape them.)"""
+    proxies.set_iw(3 * w + 10)
+    from claripy.backends.backend_vsa.bool_result import BoolResult
+
+    def body(c):
+        d, ms = sym_dsis("a", w)
+        o = absval.sym("o", w, nonempty=True)
+        y = absval.sym_member("y", o)
+        ok, _ = _run(c, "first-" + query, (lambda: d.collapse()) if query == "collapse" else (lambda: d.ULT(absval.sym("k", w, nonempty=True))))
+        if not ok:
+            return "refused-first"
+        ok, u = _run(c, "union", lambda: d.union(o))
+        if not ok:
+            return u
+        if query == "collapse":
+            ok, res = _run(c, "collapse-after-union", lambda: u.collapse() if hasattr(u, "collapse") else u)
+            if not ok:
+                return res
+            c.check("history/collapse-after-union/gamma", dsis_contains(res, y), "collapse() of the union does not contain a member that the union added (stale derived state)")
+        else:
+            k = absval.sym("k2", w, nonempty=True)
+            kv = absval.sym_member("kv", k)
+            ok, res = _run(c, "ULT-after-union", lambda: u.ULT(k))
+            if not ok:
+                return res
+            if isinstance(res, BoolResult):
+                vals = tuple(res.value)
+                truth = z3.ULT(y, kv)
+                c.check("history/ULT-after-union/gamma", z3.Or(*[truth == z3.BoolVal(bool(v)) for v in vals]) if vals else False,
+                        f"the comparison of the union answers {vals}, a member that the union added says otherwise")
+        return "answered"
+    return explore(body, _opts(tier))
+
+
+def replay_history(task=None, failure=None):
+    """native: {1, 3} as a discrete set is collapsed (or compared), joined with {200}, and asked again"""
+    from claripy.backends.backend_vsa import StridedInterval as SI
+    from claripy.backends.backend_vsa.discrete_strided_interval_set import DiscreteStridedIntervalSet as DS
+    mk = lambda v: SI(bits=8, stride=0, lower_bound=v, upper_bound=v)  # noqa
+    d = DS(bits=8, si_set={mk(1), mk(3)})
+    first = d.collapse()
+    d.ULT(mk(5))
+    u = d.union(mk(200))
+    col = u.collapse() if hasattr(u, "collapse") else u
+    cmp = u.ULT(mk(5))
+    lost = not col.solution(200)
+    wrong = tuple(cmp.value) == (True,)
+    return {"reproduced": bool(lost or wrong), "text": f"DSIS{{1, 3}}: collapse() = {first}; union with 200 = {u}; collapse() of the union = {col}"
+            + (" - 200 is not in it" if lost else "") + f"; (union <u 5) = {tuple(cmp.value)}" + (" although 200 is a member" if wrong else "")}
+
+
 def ob_dsis_frame(w=2, tier="quick"):
     """the real DiscreteStridedIntervalSet._update_bounds writes nothing but self._lower_bound / self._upper_bound"""
     proxies.set_iw(3 * w + 10)
